@@ -1,6 +1,6 @@
 ----------------------------- MODULE MC_Duration -----------------------------
 (* Bounded design check of Duration (job D for C06) on the lattice of case boundaries. *)
-EXTENDS Duration, TLC
+EXTENDS TimeDeltaImpl, TLC
 CONSTANT Deep
 VARIABLES x, y, k, phase
 Base == { Zero, One, FromInt(999999999), NSb, Add(NSb, One), FromInt(1500000000), Mul1e9(FromInt(60)), Mul1e9(FromInt(86400)),
@@ -45,6 +45,13 @@ Division == (InRange(x) /\ k # 0 /\ k \in -1000..1000) =>
           LET q == IF k > 0 THEN TruncDivSmall(x, k) ELSE Neg(TruncDivSmall(x, -k)) IN
           /\ DivOk(x, FromInt(k), q)                                            \* the exact (truncated) quotient is admitted
           /\ ~DivOk(x, FromInt(k), Add(q, FromInt(3))) /\ ~DivOk(x, FromInt(k), Sub(q, FromInt(3)))   \* and the tolerance is tight
+\* the floor representation with its carry logic refines the abstract duration (impl/TimeDeltaImpl.tla)
+OptVal(r) == IF r = NoRep THEN NoDur ELSE Val(r)
+ImplRefines == (InRange(x) /\ InRange(y)) =>
+          /\ OptVal(AddI(RepOf(x), RepOf(y))) = CAdd(x, y) /\ OptVal(SubI(RepOf(x), RepOf(y))) = CSub(x, y)
+          /\ Val(NegI(RepOf(x))) = Neg(x) /\ Val(AbsI(RepOf(x))) = Abs(x)
+          /\ OptVal(MulI(RepOf(x), k)) = CMul(x, FromInt(k))
+          /\ Val(RepOf(x)) = x /\ NewI(RepOf(x).secs, RepOf(x).nanos) = RepOf(x)
 Order == Cmp(x, y) = -Cmp(y, x) /\ (Cmp(x, y) = 0 <=> x = y) /\ (Lt(x, y) <=> Sign(Sub(x, y)) = -1)
 Std == (InRange(x) /\ ~x.neg) => LET sn == DivMod1e9(x) IN FromStd(sn[1], FromInt(sn[2])) = x
 =============================================================================
